@@ -360,6 +360,9 @@ func genUDoc(r *Rng, depth int) *UDoc {
 	}
 	d.Stack = r.Intn(3)
 	if r.Chance(1, 6) {
+		d.Stack = 3 + r.Intn(2)
+	}
+	if r.Chance(1, 6) {
 		// a kind-less node that spells a registered sentinel's (type, message) - with or
 		// without nested causes (only the cause-less one is the sentinel itself)
 		sp := Pick(r, [][2]string{{"*errors.errorString", "EOF"}, {"*errors.errorString", "s1"}, {"*main.leafErr", "leaf1"}, {"*errors.errorString", "unexpected EOF"}})
@@ -564,8 +567,16 @@ func (w *umWorld) decoyOptions() []unmarshaler.Option {
 	return []unmarshaler.Option{unmarshaler.WithCustomFields(w.customBase...), unmarshaler.WithCustomFields(decoyKey)}
 }
 
+// mkFrames: n <= 2 complete frames; 3: one frame WITHOUT a file; 4: a file-less frame, then a complete one
+// (documents not written by the library)
 func mkFrames(n int) []errdef.Frame {
 	var fs []errdef.Frame
+	switch n {
+	case 3:
+		return []errdef.Frame{{Func: "pkg.nofile", Line: 3}}
+	case 4:
+		return []errdef.Frame{{Func: "pkg.nofile", Line: 3}, {Func: "pkg.fn1", File: "/src/f1.go", Line: 11}}
+	}
 	for i := 0; i < n; i++ {
 		fs = append(fs, errdef.Frame{Func: fmt.Sprintf("pkg.fn%d", i), File: fmt.Sprintf("/src/f%d.go", i), Line: 10 + i})
 	}
